@@ -323,7 +323,7 @@ pub fn check(ctx: &Ctx) -> Vec<PartReport> {
             require: vec![],
         },
     ));
-    let n = ctx.cases(6_000, 400_000);
+    let n = ctx.cases(30_000, 400_000);
     out.push(run_part(
         ctx,
         PartSpec {
